@@ -52,6 +52,11 @@ const (
 	acquired = iota
 	blocked
 	released
+	// reacquiring is the state of a holder that is returning from block and is
+	// about to put its token back into l.ch. A concurrent release must not take
+	// a token out of l.ch on the holder's behalf in this state (the holder's
+	// token is not there yet); block gives the token back itself.
+	reacquiring
 )
 
 // release gives up the holder's spot in ch.
@@ -77,9 +82,14 @@ func (h *holder) block(f func()) {
 			// If we are still blocked, re-acquire. Otherwise, we just got got released
 			// (and that release used our token we gave up), and should no longer try to
 			// re-acquire.
-			if atomic.CompareAndSwapInt64(&h.status, blocked, acquired) {
+			if atomic.CompareAndSwapInt64(&h.status, blocked, reacquiring) {
 				verifhook.Yield("limiter.block.reacquiring")
 				h.l.ch <- struct{}{}
+				// Only now, with our token back in ch, may a release take it out. If we
+				// got released while re-acquiring, give the token back ourselves.
+				if !atomic.CompareAndSwapInt64(&h.status, reacquiring, acquired) {
+					<-h.l.ch
+				}
 			}
 		}()
 	}
